@@ -114,6 +114,7 @@ func runC14(e *Env) {
 
 	// ---- command paths
 	checkCmdKeys(e, p)
+	checkConfigDecoder(e, p)
 }
 
 // globalOf: v is a load of a package-level variable.
@@ -664,4 +665,36 @@ func checkCmdKeys(e *Env, p *load.Program) {
 			r.Unknown("E4.cmdpath", s.fn, "", "no local struct with a seccomp.Policy field found")
 		}
 	}
+}
+
+// checkConfigDecoder (E4.cfgpath): the documented configuration path is YAML through go-ucfg/yaml, which keeps 64-bit
+// integers exact.  A JSON decoder in the sandbox's policy path (go-ucfg/json, encoding/json into interface values) turns
+// every number into a float64 first: operands above 2^53 are rounded silently and the policy compiles to another program
+// than the equivalent in-memory one.
+func checkConfigDecoder(e *Env, p *load.Program) {
+	r := e.R
+	n := 0
+	// every function of a decoder package that the sandbox calls or merely refers to (a loader chosen at run time)
+	for _, f := range p.SrcFuncs(load.PkgSandbox) {
+		for _, b := range f.Blocks {
+			for _, in := range b.Instrs {
+				var ops []*ssa.Value
+				for _, op := range in.Operands(ops) {
+					cal, ok := (*op).(*ssa.Function)
+					if !ok || cal == nil || cal.Pkg == nil || cal.Name() == "init" {
+						continue
+					}
+					path := cal.Pkg.Pkg.Path()
+					switch {
+					case strings.HasSuffix(path, "go-ucfg/yaml"):
+						n++
+					case strings.HasSuffix(path, "go-ucfg/json"), path == "encoding/json" && (cal.Name() == "Unmarshal" || cal.Name() == "Decode"):
+						r.Bad("E4.cfgpath", load.FuncName(f)+"/"+cal.Pkg.Pkg.Name()+"."+cal.Name(), p.Pos(in.Pos()),
+							"the sandbox reads a policy through a JSON decoder that converts every number to float64 before it reaches Condition.Value (uint64): operands that are not float64-exact (above 2^53) are rounded without an error, so the loaded policy compiles to a different program than the equivalent in-memory policy")
+					}
+				}
+			}
+		}
+	}
+	r.Check(n >= 1, "E4.cfgpath", "sandbox/yaml-loader", "", "the sandbox loads its policy through go-ucfg/yaml (64-bit integers stay exact)", "no call into go-ucfg/yaml found in the sandbox: the documented configuration path is not used")
 }
